@@ -178,7 +178,13 @@ def run(b, ps, tier, seed):
             "EqualType (or the checks before it) does not return on case %s: %s" % (i, obs[:60]),
             {"property": PROP, "kind": "equal-not-total", "input_text": small, "input_hex": small.encode("latin1", "replace").hex(),
              "observed": obs[:300], "replay_cmd": "bin/check C08 --replay <this file>"}))
-    for i, k, t, x, a in law_bad[:3]:
+    seen_ids = set()
+    law_first = []
+    for y in law_bad:
+        if y[0] not in seen_ids:
+            seen_ids.add(y[0])
+            law_first.append(y)
+    for i, k, t, x, a in law_first[:3]:
         law = x[0]
         small, found = t, x
         if not law.startswith("equal-by"):
@@ -193,7 +199,7 @@ def run(b, ps, tier, seed):
             else:
                 small = t
         violations.append(C.Violation(
-            "EqualType violates the law '%s' on case %s, queries %s" % (law, i, list(found[1:])),
+            "EqualType violates the law '%s' on case %s, pool positions %s (queries in order of their Q index, in the replay text)" % (law, i, list(found[1:])),
             {"property": PROP, "kind": "law", "law": law, "pair": list(found[1:]), "input_text": small,
              "input_hex": small.encode("latin1", "replace").hex(), "bodies_matrix": a.get("B"), "names_matrix": a.get("N"),
              "replay_cmd": "bin/check C08 --replay <this file>"}))
